@@ -9,7 +9,7 @@ from props import funcs_common as FC
 
 THEOREMS = ['sum_is_matrix_sum', 'composition_is_matrix_product', 'composition_is_matrix_product_everywhere',
             'composition_keeps_infinity', 'sum_keeps_infinity', 'results_well_formed',
-            'fixpoint_is_closure', 'while_correction_pointwise']
+            'fixpoint_is_closure', 'fixpoint_total', 'while_correction_pointwise']
 RULE = ('relations built by the real analysis from assignment statements (all operand patterns), then combined by '
         'random composition, sum, fixpoint and while/loop correction, over differently ordered and partially '
         'overlapping variable lists, <=4 derivation indices; for every pair the real sum / composition / fixpoint are '
@@ -98,13 +98,37 @@ def run(ctx):
             r = (r + nxt) if rng.random() < 0.6 else (r * nxt)
         return r
 
+    def shift_rel():
+        """relation of `a = b; b = c; c = d; ...` (3-6 stages, some with + / *): zero diagonal along the
+        path, the k-th stage appears only in the k-th power"""
+        from pymwp import Analysis, DeltaGraph
+        vs = rng.sample(['x', 'y', 'z', 'a', 'b', 'c'], rng.randint(4, 6))
+        r = None
+        nb = 0
+        idx = 0
+        for i in range(len(vs) - 1):
+            if rng.random() < 0.75 or nb >= 2:
+                src = f'{vs[i]} = {vs[i + 1]};'
+            else:
+                nb += 1
+                src = f'{vs[i]} = {vs[i + 1]} {rng.choice("+*")} {rng.choice(vs)};'
+            stmt = astwire.parse('int f(){ %s }' % src).ext[0].body.block_items[0]
+            idx, rl, _ = Analysis.compute_relation(idx, stmt, DeltaGraph())
+            r = rl.first if r is None else r * rl.first
+        return r
+
     n_total = ctx.budget(260, 5000)
     for it in range(n_total):
         if ctx.expired():
             break
         nidx = rng.randint(1, 3)
         try:
-            if it % 2 == 0:
+            shifted = False
+            if it % 6 == 5:
+                r1 = shift_rel()
+                r2 = loop_body(2)
+                shifted = True
+            elif it % 2 == 0:
                 nidx = 2
                 r1 = loop_body(rng.choice([2, 3, 3, 4]))
                 r2 = loop_body(2)
@@ -118,7 +142,7 @@ def run(ctx):
         snap = json.dumps([w1, w2])
         try:
             s, t = r1 + r2, r1 * r2
-            f = r1.fixpoint() if len(r1.variables) <= 3 else None
+            f = r1.fixpoint() if (len(r1.variables) <= 3 or shifted) else None
         except Exception as e:
             ctx.violation({'kind': 'raises', 'exception': type(e).__name__}, f'relation operation raised {type(e).__name__}',
                           {'r1': w1, 'r2': w2})
